@@ -572,3 +572,35 @@ def longline_program(r):
         L.append(store(1))
     L.append(f"db.Setting = {vs[0]}")
     return HEADER + "\n".join(L) + "\n"
+
+
+# ------------------------------------------------------------------------------ look-alike function names, both emitted
+NAME_PAIRS = [("fill_a", "fillxa"), ("get_v", "getxv"), ("a_b", "azb"), ("a_c", "abc"), ("run_1", "runz1"), ("p_q", "pxq"), ("update", "update_display"), ("set", "set_all"), ("tick", "pre_tick"), ("step", "substep"), ("a", "a_b"), ("b", "a_b"), ("to", "to_sunset"), ("x_y_z", "xayaz"), ("f_1", "f11"), ("calc", "calc2")]
+
+
+def pair_program(r):
+    """Two (sometimes three) functions whose names look alike after mangling ('_' -> '.'), ALL of them emitted as
+    subroutines (each is called at least twice) and called from each other's neighbourhood: a label substitution
+    that matches more than the exact token sends a call to the wrong function."""
+    a, b = r.choice(NAME_PAIRS)
+    names = [a, b]
+    if r.random() < 0.4:
+        c = r.choice([x for p in NAME_PAIRS for x in p if x not in names])
+        names.append(c)
+    r.shuffle(names)
+    cells = _Cells(r)
+    L = []
+    for k, nm in enumerate(names):
+        L.append(f"def {nm}(v):")
+        if r.random() < 0.4:
+            L += [f"    if {r.choice(IN_BOOL)}:", "        return"]
+        L.append(f"    {cells.next()} = v + {100 * (k + 1)}")
+        if k and r.random() < 0.4:
+            L.append(f"    {names[k - 1]}(v + 1)")
+    main = ["while True:", "    yield_()"]
+    calls = []
+    for nm in names:
+        for _ in range(r.randint(2, 3)):
+            calls.append(f"    {nm}({_arg(r, [])})")
+    r.shuffle(calls)
+    return HEADER + "\n".join(L + main + calls) + "\n"
